@@ -799,6 +799,12 @@ func (e *Exec) callByContract(fr *Frame, st *BState, x *ssa.Call, f *ssa.Functio
 // havocOutTraces: a callee that may call produce/metaSend extends the ghost output traces by an unknown suffix
 // (the prefix is unchanged); what it appended is described by the callee's ensures.
 func (e *Exec) havocOutTraces(st *BState, why string, out, outm bool) {
+	if v, ok := st.ghost["$produceFailed"]; ok {
+		// produce / metaSend may have been called (and failed) in the havoc'd part: sticky flag can only become true
+		nv := e.fresh(why+".produceFailed", SBool)
+		e.assume(implies(scal(v), nv))
+		st.ghost["$produceFailed"] = boolSV(nv)
+	}
 	for _, g := range []string{"OUT", "OUTM"} {
 		if g == "OUT" && !out || g == "OUTM" && !outm {
 			continue
